@@ -19,7 +19,8 @@ RULE = ('Sequences of 1-8 items, each a valid frame value (all 14 types) or a ma
         'small read buffer; message mode feeds each item as one message (including the empty message), also through the '
         'incoming queue of AbstractMessagingTransport and through the read loops of the repository\'s six websocket '
         'transports (aiohttp client / server, websockets, asyncwebsockets, quart, channels) given a stand-in websocket '
-        'object, with non-binary messages in between; valid frames are also sent through each transport\'s send_frame '
+        'object, with non-binary messages in between, and the length-prefixed stream in the generated chunks through the '
+        'QUIC transport (real RSocketQuicProtocol / RSocketQuicTransport over a stand-in QuicConnection); valid frames are also sent through each transport\'s send_frame '
         '(one message per frame, holding its bytes). Oracle: '
         'identical output sequence for every partition (metamorphic) and equal to the reference: each valid frame '
         'exactly once, in order, equal to its value; each malformed body yields what parse_or_ignore does on that '
@@ -461,6 +462,33 @@ def glue_prop(case):
             continue
         if sent != valid_bodies:
             out.append(viol('message_output_differs', 'C04:glue_sent_differs:' + g, glue=g, n_sent=len(sent), n_frames=len(valid_bodies)))
+    # byte framing over the QUIC transport: the length-prefixed stream arrives in the generated chunks
+    stream = b''.join(refcodec.frame_with_length(b) for b in bodies)
+    pts = [0] + list(case['cuts']) + [len(stream)]
+    for name, chunks in (('cuts', [stream[a:b] for a, b in zip(pts, pts[1:])]), ('one', [stream]),
+                         ('bytes', [stream[i:i + 1] for i in range(len(stream))] if len(stream) <= 600 else None)):
+        if chunks is None:
+            continue
+        try:
+            got = vloop.run_case(glue.feed_quic, chunks, len(items) + 2)
+        except glue.Endless:
+            out.append(viol('decoder_does_not_terminate', 'C04:endless:glue:aioquic', glue='aioquic', partition=name))
+            break
+        except Exception as e:
+            is_repo, sig = common.repo_exception_sig(e)
+            if not is_repo:
+                raise
+            out.append(viol('message_transport_raised', 'C04:glue_raised:aioquic:%s' % type(e).__name__, glue='aioquic',
+                            partition=name, exc=repr(e)))
+            break
+        if any(isinstance(x, tuple) for x in got):
+            out.append(viol('message_transport_raised', 'C04:glue_queue_raised:aioquic', glue='aioquic', partition=name))
+            break
+        seq = [view(fr) for fr in got]
+        if strip(seq) != strip(want_seq):
+            out.append(viol('chunking_changes_output', 'C04:glue_output_differs:aioquic:' + name, glue='aioquic', partition=name,
+                            n_got=len(seq), n_want=len(want_seq)))
+            break
     info['nt'] = len(items) >= 2
     info['classes'] = ['part=glue', 'items=%d' % len(items), 'has_malformed=%s' % any(it['kind'] != 'frame' for it in items)]
     info['key'] = common.case_hash(['glue'] + [b.hex() if len(b) < 2000 else common.case_hash(b.hex()) for b in bodies])
